@@ -526,17 +526,18 @@ Section WithText.
   (* the whitespace gap test is what it says *)
   Lemma gap_ws_meaning x y :
     gap_ws ws x y = true <->
-    x <= y /\ y <= length ws /\ forall p, x <= p < y -> nth p ws false = true.
+    x <= y /\ y <= length ws /\ y - x <= WHITESPACE_LIMIT
+    /\ forall p, x <= p < y -> nth p ws false = true.
   Proof.
-    unfold gap_ws. destruct ((x <=? y) && (y <=? length ws)) eqn:E.
-    - assert (Hxy : x <= y /\ y <= length ws) by lia. clear E.
+    unfold gap_ws. destruct ((x <=? y) && (y <=? length ws) && (y - x <=? WHITESPACE_LIMIT)) eqn:E.
+    - assert (Hxy : x <= y /\ y <= length ws /\ y - x <= WHITESPACE_LIMIT) by lia. clear E.
       rewrite (forallb_nth _ _ false), firstn_length, skipn_length.
       split.
       + intros H. repeat split; try lia. intros p Hp.
         specialize (H (p - x)). rewrite nth_firstn, nth_skipn in H by lia.
         replace (x + (p - x)) with p in H by lia. apply H. lia.
-      + intros (_ & _ & H) i Hi. rewrite nth_firstn, nth_skipn by lia. apply H. lia.
-    - split; [discriminate|]. intros (H1 & H2 & _). lia.
+      + intros (_ & _ & _ & H) i Hi. rewrite nth_firstn, nth_skipn by lia. apply H. lia.
+    - split; [discriminate|]. intros (H1 & H2 & H3 & _). lia.
   Qed.
 
 End WithText.
